@@ -300,4 +300,123 @@ theorem writeSeq_spec (t : BSink) (ht : t.good) (cs : List Bytes) :
         rw [List.append_assoc, List.drop_drop, List.length_drop] at l
         simpa using l
 
+/-! ### scripts of Encoder calls on one sink (carrying on after failures) -/
+
+/-- what the `put` chunks of ONE call leave in a sink with `free` bytes left: the chunks as long as
+    they fit, then nothing more (all-or-nothing sinks) or the part of the next chunk that still
+    fits (`std::io` writer). -/
+def fitPrefix (atomic : Bool) : Nat → List Bytes → Bytes
+  | _, [] => []
+  | free, c :: cs =>
+    if c.length ≤ free then c ++ fitPrefix atomic (free - c.length) cs
+    else if atomic then [] else c.take free
+
+theorem fitPrefix_le (atomic : Bool) (cs : List Bytes) : ∀ free, (fitPrefix atomic free cs).length ≤ free := by
+  induction cs with
+  | nil => intro free; simp [fitPrefix]
+  | cons c cs ih =>
+    intro free
+    unfold fitPrefix
+    split
+    · have := ih (free - c.length); simp; omega
+    · cases atomic <;> simp; omega
+
+theorem fitPrefix_prefix (atomic : Bool) (cs : List Bytes) : ∀ free, fitPrefix atomic free cs <+: cs.flatten := by
+  induction cs with
+  | nil => intro free; simp [fitPrefix]
+  | cons c cs ih =>
+    intro free
+    unfold fitPrefix
+    split
+    · simpa using (List.prefix_append_right_inj c).mpr (ih (free - c.length))
+    · cases atomic
+      · simpa using List.IsPrefix.trans (List.take_prefix _ _) (List.prefix_append _ _)
+      · simp
+
+/-- it is everything exactly when everything fits. -/
+theorem fitPrefix_all (atomic : Bool) (cs : List Bytes) : ∀ free, cs.flatten.length ≤ free →
+    fitPrefix atomic free cs = cs.flatten := by
+  induction cs with
+  | nil => intro free _; simp [fitPrefix]
+  | cons c cs ih =>
+    intro free h
+    simp only [List.flatten_cons, List.length_append] at h
+    unfold fitPrefix
+    rw [if_pos (by omega), ih (free - c.length) (by omega)]; simp
+
+theorem fitPrefix_lt (atomic : Bool) (cs : List Bytes) : ∀ free, free < cs.flatten.length →
+    (fitPrefix atomic free cs).length < cs.flatten.length := by
+  intro free h
+  have := fitPrefix_le atomic cs free
+  omega
+
+/-- **one call** (its `put` chunks through `putAll`), with the bytes it leaves behind named exactly. -/
+theorem putAll_fit (t : BSink) (ht : t.good) (cs : List Bytes) :
+    ∀ {b : Buf} {L A F R : Bytes}, Lay b L A F R →
+      ∃ b', (t.mk b).putAll cs = (if cs.flatten.length ≤ F.length then .ok (t.mk b') else .err (t.mk b')) ∧
+        Lay b' L (A ++ fitPrefix t.atomic F.length cs) (F.drop (fitPrefix t.atomic F.length cs).length) R := by
+  induction cs with
+  | nil => intro b L A F R h; exact ⟨b, by simp [Sink.putAll], by simpa [fitPrefix] using h⟩
+  | cons c cs ih =>
+    intro b L A F R h
+    obtain ⟨s1, s2⟩ := step_spec t ht h c
+    by_cases hc : c.length ≤ F.length
+    · obtain ⟨b1, e1, l1⟩ := s1 hc
+      obtain ⟨b', e, l⟩ := ih l1
+      refine ⟨b', ?_, ?_⟩
+      · have hput : (t.mk b).putAll (c :: cs) = (t.mk b1).putAll cs := by simp [Sink.putAll, e1]
+        rw [hput, e]
+        simp only [List.flatten_cons, List.length_append, List.length_drop]
+        by_cases hf : cs.flatten.length ≤ F.length - c.length
+        · rw [if_pos hf, if_pos (by omega)]
+        · rw [if_neg hf, if_neg (by omega)]
+      · simp only [fitPrefix, hc, if_true]
+        rw [List.append_assoc, List.drop_drop, List.length_drop] at l
+        simpa using l
+    · have hc' : F.length < c.length := by omega
+      obtain ⟨b1, e1, l1⟩ := s2 hc'
+      refine ⟨b1, ?_, ?_⟩
+      · have hput : (t.mk b).putAll (c :: cs) = .err (t.mk b1) := by simp [Sink.putAll, e1]
+        rw [hput, if_neg (by simp only [List.flatten_cons, List.length_append]; omega)]
+      · simp only [fitPrefix, hc, if_false]
+        cases hat : t.atomic <;> simp only [hat] at l1 ⊢ <;> simpa using l1
+
+/-- specification of a call script on a sink with `free` bytes left: a call succeeds iff all its
+    chunks fit into what is left *then*, and leaves `fitPrefix` behind either way. -/
+def specCalls (atomic : Bool) : Nat → List (List Bytes) → List Bool × Bytes
+  | _, [] => ([], [])
+  | free, ps :: rest =>
+    let a := fitPrefix atomic free ps
+    let r := specCalls atomic (free - a.length) rest
+    (decide (ps.flatten.length ≤ free) :: r.1, a ++ r.2)
+
+theorem specCalls_le (atomic : Bool) (pss : List (List Bytes)) : ∀ free, (specCalls atomic free pss).2.length ≤ free := by
+  induction pss with
+  | nil => intro free; simp [specCalls]
+  | cons ps rest ih =>
+    intro free
+    have h1 := fitPrefix_le atomic ps free
+    have h2 := ih (free - (fitPrefix atomic free ps).length)
+    simp only [specCalls, List.length_append]; omega
+
+theorem callSeq_spec (t : BSink) (ht : t.good) (pss : List (List Bytes)) :
+    ∀ {b : Buf} {L A F R : Bytes}, Lay b L A F R →
+      ∃ b', (t.mk b).callSeq pss = some (t.mk b', (specCalls t.atomic F.length pss).1) ∧
+        Lay b' L (A ++ (specCalls t.atomic F.length pss).2) (F.drop (specCalls t.atomic F.length pss).2.length) R := by
+  induction pss with
+  | nil => intro b L A F R h; exact ⟨b, rfl, by simpa [specCalls] using h⟩
+  | cons ps rest ih =>
+    intro b L A F R h
+    obtain ⟨b1, e1, l1⟩ := putAll_fit t ht ps h
+    obtain ⟨b', e, l⟩ := ih l1
+    refine ⟨b', ?_, ?_⟩
+    · by_cases hf : ps.flatten.length ≤ F.length
+      · rw [if_pos hf] at e1
+        simp only [Sink.callSeq, e1, e, specCalls, hf, decide_true, List.length_drop, Option.map_some]
+      · rw [if_neg hf] at e1
+        simp only [Sink.callSeq, e1, e, specCalls, hf, decide_false, List.length_drop, Option.map_some]
+    · simp only [specCalls]
+      rw [List.append_assoc, List.drop_drop, List.length_drop] at l
+      simpa using l
+
 end Minicbor.Sink
